@@ -246,3 +246,6 @@ func NoDeadlock(label string) {
 		os.Exit(1)
 	}()
 }
+
+// DeepEqual: structural equality.
+func DeepEqual(a, b interface{}) bool { return reflect.DeepEqual(a, b) }
